@@ -77,13 +77,13 @@ def time_limit(sec):
     def handler(signum, frame):
         raise Hang()
 
-    old = signal.signal(signal.SIGALRM, handler)
-    signal.setitimer(signal.ITIMER_REAL, sec)
+    old = signal.signal(signal.SIGPROF, handler)   # CPU time of this process: a loaded machine must not look like a hang
+    signal.setitimer(signal.ITIMER_PROF, sec)
     try:
         yield
     finally:
-        signal.setitimer(signal.ITIMER_REAL, 0)
-        signal.signal(signal.SIGALRM, old)
+        signal.setitimer(signal.ITIMER_PROF, 0)
+        signal.signal(signal.SIGPROF, old)
 
 
 def _exc_name(e):
